@@ -192,4 +192,15 @@ theorem indents_balance (items : List Item) : (lex items).count .dedent = (lex i
   omega
 
 
+
+/-- After any number of events (every prefix of the input, at event granularity) the lexer has never closed more
+blocks than it opened, and its indentation stack is never empty. -/
+theorem never_more_dedents (evs : List Event) :
+    (run2 S2.init evs).out.count .dedent ≤ (run2 S2.init evs).out.count .indent ∧ (run2 S2.init evs).stack ≠ [] := by
+  have ⟨h1, h2⟩ := bal_run S2.init evs bal_init
+  cases hs : (run2 S2.init evs).stack with
+  | nil => simp [hs] at h1
+  | cons a as => rw [hs] at h2; simp only [List.length_cons] at h2; exact ⟨by omega, by simp⟩
+
+
 end Incan.Layout
